@@ -8,6 +8,8 @@ V-NOCACHE  no statistic value is memoised: stat objects assign no attribute outs
 V-ORDER    every ordered output of a statistic (asdict/aslist/asnumpy/aspandas, multi variants, argsort/argmax/argmin)
            takes its order from iteration over the view; from_view orders a bunch by the table, not by the bunch.
 V-FWD      every public method of the view classes reads each parameter and forwards keywords under their own name.
+V-UNION    the total degree of a node / total size of an edge of a directed network is the size of the UNION of its two
+           sides, never the sum of their sizes (a node in both tail and head of one edge would count twice).
 V-FILTER   in filterby / filterby_attr each mode maps to its comparison operator between the stat value and the
            argument, the candidates are iterated in view order and the result is restricted through from_view.
 """
@@ -31,7 +33,7 @@ TABLE_OF_VIEW_ATTR = {"_id_dict", "_id_attr", "_bi_id_dict", "_bi_id_attr"}
 def run(ctx):
     repo = ctx.repo
     res = Result(PROP)
-    res.rules = ["V-LIVE", "V-REBIND", "V-NOCACHE", "V-ORDER", "V-FILTER", "V-FWD"]
+    res.rules = ["V-LIVE", "V-REBIND", "V-NOCACHE", "V-ORDER", "V-FILTER", "V-FWD", "V-UNION"]
     res.explanation = (
         "Structural rules over the view and stat classes and a package-wide who-may-rebind scan (effect analysis): views "
         "alias the live tables, nothing is cached, ordered outputs are tagged with the provenance of their iteration "
@@ -62,7 +64,30 @@ def run(ctx):
                 continue
             n += check_params(repo, res, ci, m, prop=PROP, rule="V-FWD")
     res.floor("view methods checked for dropped parameters", n, 20)
+    from .common import pattern_lint
+
+    stat_fns = [f for mn in ("xgi.stats.dinodestats", "xgi.stats.diedgestats", "xgi.core.views") for f in (list(repo.modules[mn].functions.values()) + [m for c in repo.modules[mn].classes.values() for m in c.methods.values()]) if mn in repo.modules]
+    pattern_lint(res, PROP, "V-UNION", stat_fns, sum_of_sides_sites,
+                 "def _deg(net, n):\n    return len(net._node[n]['in']) + len(net._node[n]['out'])\n",
+                 lambda nd: f"`{unparse(nd, 70)}` adds the sizes of the two sides of one directed entry; a node that is both in the tail and in the head of the same edge (or an edge that is both among the in- and out-memberships) is counted twice, so the statistic disagrees with the degree / size defined on the union",
+                 "sums of the sizes of the in and out sides of one entry")
     return res
+
+
+def sum_of_sides_sites(fn_node):
+    """len(X["in"]) + len(X["out"]) for the same X."""
+    def side(e):
+        if isinstance(e, ast.Call) and isinstance(e.func, ast.Name) and e.func.id == "len" and len(e.args) == 1:
+            a = e.args[0]
+            if isinstance(a, ast.Subscript) and isinstance(a.slice, ast.Constant) and a.slice.value in ("in", "out"):
+                return a.slice.value, ast.dump(a.value)
+        return None
+
+    for n in ast.walk(fn_node):
+        if isinstance(n, ast.BinOp) and isinstance(n.op, ast.Add):
+            a, b = side(n.left), side(n.right)
+            if a and b and a[0] != b[0] and a[1] == b[1]:
+                yield n
 
 
 # ------------------------------------------------------------------------------------------ V-LIVE
